@@ -130,15 +130,93 @@ theorem search_const (off : Int → Int) (o H e : Int) (hc : ∀ t, e < t → t 
   rw [skipSearch_head]
   simp only [search, pass, hno, if_false, hp]
 
+/-! ## the search without any assumption on the zone -/
+
+theorem skipSearch_desc : skipSearch.Pairwise (· ≥ ·) := by decide
+
+theorem loop_any (off : Int → Int) (o d H : Int) (hd : 0 < d) :
+    ∀ (n : Nat) (e : Int), e + d ≤ H → H - (e + d) < n →
+      (∃ r, loop off o d H n e (e + d) = .ok r ∧ e ≤ r ∧ r + d ≤ H ∧ off (r + d) ≠ o) ∨
+      (∃ r, loop off o d H n e (e + d) = .brk r ∧ e < r ∧ r ≤ H ∧ H < r + d) := by
+  intro n
+  induction n with
+  | zero => intro e h1 h2; simp at h2; omega
+  | succ k ih =>
+    intro e h1 h2
+    unfold loop
+    by_cases hq : off (e + d) = o
+    · simp only [hq, if_true]
+      by_cases hov : e + d + d > H
+      · simp only [hov, if_true]
+        right; exact ⟨e + d, rfl, by omega, h1, by omega⟩
+      · simp only [hov, if_false]
+        rcases ih (e + d) (by omega) (by omega) with ⟨r, hr, a, b, c⟩ | ⟨r, hr, a, b, c⟩
+        · left; exact ⟨r, hr, by omega, b, c⟩
+        · right; exact ⟨r, hr, by omega, b, c⟩
+    · simp only [hq, if_false]
+      left; exact ⟨e, rfl, Int.le_refl _, h1, hq⟩
+
+theorem pass_any (off : Int → Int) (o d H e : Int) (hd : 0 < d) (h1 : e + d ≤ H) :
+    (∃ r, pass off o d H e = .ok r ∧ e ≤ r ∧ r + d ≤ H ∧ off (r + d) ≠ o) ∨
+    (∃ r, pass off o d H e = .brk r ∧ e < r ∧ r ≤ H ∧ H < r + d) := by
+  unfold pass
+  have : ¬ (e + d > H) := by omega
+  simp only [this, if_false]
+  apply loop_any off o d H hd _ e h1
+  have : (((H - e).toNat + 1 : Nat) : Int) = (H - e) + 1 := by
+    rw [Int.natCast_add, Int.toNat_of_nonneg (by omega)]; simp
+  omega
+
+/-- Whatever the zone does: with descending positive steps the search never raises; it ends either
+    at a value whose successor has another offset (when the last step is 1), or with the overflow
+    break within one step of the horizon. -/
+theorem search_any (off : Int → Int) (o H : Int) :
+    ∀ (ds : List Int) (e : Int), ds.Pairwise (· ≥ ·) → (∀ d ∈ ds, 0 < d) → (∀ d ∈ ds.head?, e + d ≤ H) →
+      (∃ r, search off o H ds e = .ok r ∧ e ≤ r ∧ (ds.getLast? = some 1 → off (r + 1) ≠ o)) ∨
+      (∃ r, search off o H ds e = .brk r ∧ e ≤ r ∧ ∃ d ∈ ds, H < r + d) := by
+  intro ds
+  induction ds with
+  | nil => intro e _ _ _; left; exact ⟨e, rfl, Int.le_refl _, by simp⟩
+  | cons d ds ih =>
+    intro e hdesc hpos hhead
+    have hd := hpos d (by simp)
+    have h1 : e + d ≤ H := hhead d (by simp)
+    rw [List.pairwise_cons] at hdesc
+    rcases pass_any off o d H e hd h1 with ⟨r1, hp, a, b, c⟩ | ⟨r1, hp, a, b, c⟩
+    · have hhead' : ∀ d' ∈ ds.head?, r1 + d' ≤ H := by
+        intro d' hd'
+        have : d' ∈ ds := by
+          cases ds with
+          | nil => simp at hd'
+          | cons x xs => simp at hd'; subst hd'; simp
+        have := hdesc.1 d' this
+        omega
+      rcases ih r1 hdesc.2 (fun x hx => hpos x (by simp [hx])) hhead' with ⟨r, hr, a2, b2⟩ | ⟨r, hr, a2, d', hd', b2⟩
+      · left
+        refine ⟨r, by simp only [search, hp]; exact hr, by omega, ?_⟩
+        intro hl
+        cases ds with
+        | nil =>
+          simp at hl; subst hl
+          simp only [search, Pass.ok.injEq] at hr
+          subst hr; exact c
+        | cons x xs => exact b2 (by simpa [List.getLast?_cons_cons] using hl)
+      · right
+        exact ⟨r, by simp only [search, hp]; exact hr, by omega, d', by simp [hd'], b2⟩
+    · right
+      exact ⟨r1, by simp only [search, hp], by omega, d, by simp, c⟩
+
 /-! ## the outer loop along a chain of visible changes -/
 
 /-- `Ts` are the points at which the zone changes, from `s` on, as far as the loop needs them:
     between two points everything (offset, name, dst flag) is constant, every change is a change of
     the *offset*, and the old offset does not come back within the coarsest step.
-    The chain may end once `last ≤ s`, or when the zone is constant up to the horizon. -/
+    The chain may end once `last ≤ s`, when the zone is constant up to the horizon, or when it is
+    constant up to some point at or after `last` (what happens there does not matter). -/
 inductive Chain (info : Int → Info) (H last : Int) : Int → List Int → Prop where
   | stop {s : Int} : last ≤ s → Chain info H last s []
   | const {s : Int} : (∀ t, s ≤ t → t ≤ H → info t = info s) → Chain info H last s []
+  | tail {s T : Int} : last ≤ T → (∀ t, s ≤ t → t < T → info t = info s) → Chain info H last s []
   | step {s T : Int} {rest : List Int} : s < T → (∀ t, s ≤ t → t < T → info t = info s) →
       (∀ t, T ≤ t → t < T + maxStep → (info t).off ≠ (info s).off) → T + maxStep ≤ H →
       Chain info H last T rest → Chain info H last s (T :: rest)
@@ -174,6 +252,27 @@ theorem outer_chain (info : Int → Info) (wallOf : Int → Int) (H last : Int) 
           cases n with
           | zero => simp [outer, segsOf, hs, hp]
           | succ n => simp [outer, segsOf, hs, hp, hstop]
+        | tail hT htail =>
+          have hpos : ∀ d ∈ skipSearch, 0 < d := fun d hd => (skipSearch_steps d hd).1
+          have hhead : ∀ d ∈ skipSearch.head?, s + d ≤ H := by
+            intro d hd
+            rw [skipSearch_head] at hd
+            simp at hd; subst hd; omega
+          have hB : ∀ t, s ≤ t → t < _ → (info t).off = (info s).off := fun t h1 h2 => by rw [htail t h1 h2]
+          rcases search_any (fun x => (info x).off) (info s).off H skipSearch s skipSearch_desc hpos hhead with
+            ⟨r, hr, a, b⟩ | ⟨r, hr, a, d, hd, b⟩
+          · have hne := b skipSearch_last
+            have hstop : ¬ (r + 1 < last) := by
+              intro hlt
+              exact hne (hB (r + 1) (by omega) (by omega))
+            cases n with
+            | zero => simp [outer, segsOf, hs, hr]
+            | succ n => simp [outer, segsOf, hs, hr, hstop]
+          · have hdm := (skipSearch_steps d hd).2
+            have hstop : ¬ (r + 1 < last) := by omega
+            cases n with
+            | zero => simp [outer, segsOf, hs, hr]
+            | succ n => simp [outer, segsOf, hs, hr, hstop]
       · simp [outer, segsOf, hs]
   | cons T rest ih =>
     intro s hc n prev hn
@@ -264,6 +363,13 @@ theorem chain_info (info : Int → Info) (wallOf : Int → Int) (H last : Int) (
     | const hconst =>
       refine ⟨⟨prev, (info s).off, (info s).name, (info s).isStd, s, wallOf s⟩, by simp [segsOf, hs], h1,
         hconst t h1 (by omega), ?_⟩
+      intro g' hg' _
+      simp [segsOf, hs] at hg'
+      subst hg'
+      exact Int.le_refl _
+    | tail hT htail =>
+      refine ⟨⟨prev, (info s).off, (info s).name, (info s).isStd, s, wallOf s⟩, by simp [segsOf, hs], h1,
+        htail t h1 (by omega), ?_⟩
       intro g' hg' _
       simp [segsOf, hs] at hg'
       subst hg'
@@ -459,5 +565,113 @@ theorem gen_entries (segs : List Seg) (lastWall : Int)
     · rw [v1]; rfl
     · rw [v2]; rfl
     · rw [v3]; rfl
+
+/-! ## the applicability check on a table is sound -/
+
+theorem infoAt_lt (cur : Info) (r : Row) (rs : List Row) (x : Int) (h : x < r.pos) :
+    infoAt cur (r :: rs) x = cur := by
+  have : ¬ r.pos ≤ x := by omega
+  simp [infoAt, this]
+
+theorem infoAt_ge (cur : Info) (r : Row) (rs : List Row) (x : Int) (h : r.pos ≤ x) :
+    infoAt cur (r :: rs) x = infoAt r.info rs x := by
+  simp [infoAt, h]
+
+theorem infoAt_head_gt (cur : Info) (rows : List Row) (x : Int) (h : ∀ r ∈ rows.head?, x < r.pos) :
+    infoAt cur rows x = cur := by
+  cases rows with
+  | nil => rfl
+  | cons r rs => exact infoAt_lt cur r rs x (h r (by simp))
+
+theorem infoAt_mem : ∀ (rows : List Row) (cur : Info) (x : Int),
+    infoAt cur rows x = cur ∨ ∃ r ∈ rows, r.pos ≤ x ∧ infoAt cur rows x = r.info := by
+  intro rows
+  induction rows with
+  | nil => intro cur x; left; rfl
+  | cons r rs ih =>
+    intro cur x
+    by_cases h : r.pos ≤ x
+    · rw [infoAt_ge cur r rs x h]
+      rcases ih r.info x with h1 | ⟨r', hr', h2, h3⟩
+      · right; exact ⟨r, by simp, h, h1⟩
+      · right; exact ⟨r', by simp [hr'], h2, h3⟩
+    · left; exact infoAt_lt cur r rs x (by omega)
+
+theorem sortedRows_cons {r : Row} {rs : List Row} (h : sortedRows (r :: rs) = true) :
+    sortedRows rs = true ∧ ∀ r' ∈ rs.head?, r.pos < r'.pos := by
+  cases rs with
+  | nil => simp [sortedRows]
+  | cons b t =>
+    simp only [sortedRows, Bool.and_eq_true, decide_eq_true_eq] at h
+    exact ⟨h.2, by intro r' hr'; simp at hr'; subst hr'; exact h.1⟩
+
+theorem chainGo_sound (info : Int → Info) (H first last : Int) (hH : last + maxStep ≤ H) :
+    ∀ (rows : List Row) (prev : Info) (s : Int), first ≤ s → sortedRows rows = true →
+      (∀ r ∈ rows.head?, s < r.pos) → (∀ x, s ≤ x → info x = infoAt prev rows x) →
+      chainGo first last prev rows = true → ∃ Ts, Chain info H last s Ts := by
+  intro rows
+  induction rows with
+  | nil =>
+    intro prev s _ _ _ hinfo _
+    exact ⟨[], Chain.const (fun t h1 _ => by rw [hinfo t h1, hinfo s (Int.le_refl _)]; rfl)⟩
+  | cons r rs ih =>
+    intro prev s hfs hsorted hhead hinfo hgo
+    obtain ⟨hsrs, hheadrs⟩ := sortedRows_cons hsorted
+    have hsr : s < r.pos := hhead r (by simp)
+    have hs : info s = prev := by rw [hinfo s (Int.le_refl _)]; exact infoAt_lt prev r rs s hsr
+    have hconst : ∀ t, s ≤ t → t < r.pos → info t = info s := by
+      intro t h1 h2; rw [hinfo t h1, infoAt_lt prev r rs t h2, hs]
+    unfold chainGo at hgo
+    have hnf : ¬ r.pos ≤ first := by omega
+    simp only [hnf, if_false] at hgo
+    by_cases hl : last ≤ r.pos
+    · exact ⟨[], Chain.tail hl hconst⟩
+    · simp only [hl, if_false] at hgo
+      by_cases heq : r.info = prev
+      · simp only [heq, if_true] at hgo
+        apply ih prev s hfs hsrs (fun r' hr' => by have := hheadrs r' hr'; omega) ?_ hgo
+        intro x hx
+        rw [hinfo x hx]
+        by_cases hrx : r.pos ≤ x
+        · rw [infoAt_ge prev r rs x hrx, heq]
+        · rw [infoAt_lt prev r rs x (by omega)]
+          exact (infoAt_head_gt prev rs x (fun r' hr' => by have := hheadrs r' hr'; omega)).symm
+      · simp only [heq, if_false, Bool.and_eq_true, bne_iff_ne, ne_eq] at hgo
+        obtain ⟨⟨hoff, hpers⟩, hrest⟩ := hgo
+        have hinfo' : ∀ x, r.pos ≤ x → info x = infoAt r.info rs x := by
+          intro x hx; rw [hinfo x (by omega), infoAt_ge prev r rs x hx]
+        obtain ⟨Ts, hTs⟩ := ih r.info r.pos (by omega) hsrs hheadrs hinfo' hrest
+        refine ⟨r.pos :: Ts, Chain.step hsr hconst ?_ (by omega) hTs⟩
+        intro t h1 h2
+        rw [hs, hinfo' t h1]
+        rcases infoAt_mem rs r.info t with h | ⟨r', hr', hp, h⟩
+        · rw [h]; exact hoff
+        · rw [h]
+          unfold persists at hpers
+          rw [List.all_eq_true] at hpers
+          have := hpers r' hr'
+          simp only [Bool.or_eq_true, Bool.not_eq_true', decide_eq_false_iff_not, bne_iff_ne, ne_eq] at this
+          rcases this with h3 | h3
+          · omega
+          · exact h3
+
+theorem chainOK_sound_aux (info : Int → Info) (H first last : Int) (hH : last + maxStep ≤ H) :
+    ∀ (rows : List Row) (prev : Info), sortedRows rows = true →
+      (∀ x, first ≤ x → info x = infoAt prev rows x) →
+      chainGo first last prev rows = true → ∃ Ts, Chain info H last first Ts := by
+  intro rows
+  induction rows with
+  | nil =>
+    intro prev _ hinfo _
+    exact ⟨[], Chain.const (fun t h1 _ => by rw [hinfo t h1, hinfo first (Int.le_refl _)]; rfl)⟩
+  | cons r rs ih =>
+    intro prev hsorted hinfo hgo
+    by_cases hrf : r.pos ≤ first
+    · obtain ⟨hsrs, _⟩ := sortedRows_cons hsorted
+      have hgo' : chainGo first last r.info rs = true := by
+        unfold chainGo at hgo; simpa [hrf] using hgo
+      exact ih r.info hsrs (fun x hx => by rw [hinfo x hx, infoAt_ge prev r rs x (by omega)]) hgo'
+    · exact chainGo_sound info H first last hH (r :: rs) prev first (Int.le_refl _) hsorted
+        (fun r' hr' => by simp at hr'; subst hr'; omega) hinfo hgo
 
 end ICal.TzGen
